@@ -418,6 +418,12 @@ class Selector:
                 else:
                     res.append((s, ("?", norm(n)[:40])))
             return res
+        if short in ("find_spec", "find_loader", "which") and f not in self.fns and not n.keywords:
+            # looking for a package / an executable imports nothing and binds nothing: an unknown answer (tests on it fork)
+            outs = [st]
+            for a in list(n.args):
+                outs = [s2 for s in outs for s2, _v in self.ev(a, s)]
+            return [(s, None if getattr(s, "raised", None) else ("?", norm(n)[:40])) for s in outs]
         if short in ("str", "repr", "format", "lower", "upper", "strip", "get") and f not in self.fns:
             outs = [st]
             for a in list(n.args):
